@@ -437,27 +437,92 @@ Proof.
   - reflexivity.
 Qed.
 
-Lemma model_satisfies_monitor i : monitor i (model i) = true.
+Lemma bind_err_code rs e : bind rs = Err e -> e = 1 \/ e = 2 \/ e = 3.
 Proof.
-  destruct i as [s src d|rs customs sends|closed ops dest src]; cbn [model monitor].
+  intros Hb. unfold bind in Hb.
+  destruct (bind_loop rs false false [] []) as [[a4 a6]|e'|] eqn:E; try discriminate.
+  inversion Hb; subst. clear Hb.
+  revert E. generalize false at 1 as h4. generalize false as h6.
+  generalize (@nil sock) at 1 as a4. generalize (@nil sock) as a6.
+  induction rs as [|r rs IH]; intros a6 a4 h6 h4 E; cbn [bind_loop] in E; [discriminate|].
+  destruct (rbindable r); [|destruct (rrequired r); [inversion E; auto|eapply IH; eauto]].
+  destruct (negb (v6 (rsock r))); destruct (isdef (rsock r)); try (eapply IH; eauto; fail).
+  - destruct h4; [inversion E; auto|eapply IH; eauto].
+  - destruct h6; [inversion E; auto|eapply IH; eauto].
+Qed.
+
+Lemma bind_no_panic rs : bind rs <> Panic.
+Proof.
+  intros Hb. unfold bind in Hb.
+  destruct (bind_loop rs false false [] []) as [[a4 a6]|e'|] eqn:E; try discriminate.
+  now apply bind_loop_no_panic in E.
+Qed.
+
+Lemma same_sock_refl a : same_sock a a = true.
+Proof. destruct a as [i b|]; cbn; [apply N.eqb_refl|reflexivity]. Qed.
+
+Lemma opt_ip_eqb_refl s : opt_eqb ip_eqb s s = true.
+Proof. destruct s as [[n|n]|]; cbn; now rewrite ?N.eqb_refl. Qed.
+
+Lemma custom_polled_ok customs id :
+  forallb (accepts customs id) (fst (custom_dispatch 0 customs id)) = true /\
+  increasing (fst (custom_dispatch 0 customs id)) = true.
+Proof.
+  destruct (custom_dispatch 0 customs id) as [l c] eqn:D. cbn [fst].
+  destruct (custom_dispatch_ok id customs 0 l c D) as [F Inc]. split; [|exact Inc].
+  apply forallb_forall. intros j Hj. rewrite Forall_forall in F.
+  destruct (F j Hj) as [_ [acc [beh [Hn He]]]]. rewrite N.sub_0_r in Hn.
+  unfold accepts. now rewrite Hn.
+Qed.
+
+(* one poll_send of the model passes the monitor unless it is in the known class *)
+Lemma out_ok_model rs t customs relays inbox ops x :
+  bind rs = Ok t -> scope_hit rs x = false ->
+  out_ok rs customs ops x (out_send t customs relays inbox (fst (C18.run C18.init ops)) x) = true.
+Proof.
+  intros Hb Hk. destruct x as [[closed dest] src]. unfold out_send, out_ok.
+  rewrite (outer_ok_model closed ops dest src). rewrite andb_true_r.
+  set (st := fst (C18.run C18.init ops)).
+  destruct closed; [reflexivity|].
+  unfold scope_hit in Hk. cbn [negb andb] in Hk.
+  unfold outer. cbn [negb andb].
+  destruct (C18.classify dest) as [o|o|o|sa].
+  - destruct (C18.lookup_addr (C18.mE st) o); reflexivity.
+  - destruct (C18.lookup_addr (C18.mR st) o); reflexivity.
+  - destruct (C18.lookup_addr (C18.mC st) o) as [k|]; [|reflexivity].
+    cbn [quic_result deliv_of deliv_ok N.eqb andb].
+    destruct (custom_polled_ok customs (custom_id k)) as [F I]. now rewrite F, I.
+  - cbn [quic_result deliv_of deliv_ok N.eqb andb].
+    rewrite opt_ip_eqb_refl. cbn [andb].
+    rewrite (dispatch_spec rs t _ _ Hb).
+    now apply negb_false_iff in Hk.
+Qed.
+
+Lemma outs_ok_model rs t customs relays inbox ops xs :
+  bind rs = Ok t -> existsb (scope_hit rs) xs = false ->
+  outs_ok rs customs ops xs
+    (map (out_send t customs relays inbox (fst (C18.run C18.init ops))) xs) = true.
+Proof.
+  intros Hb. induction xs as [|x xs IH]; intros Hk; [reflexivity|].
+  cbn [existsb] in Hk. apply orb_false_iff in Hk as [H1 H2].
+  cbn [map outs_ok]. now rewrite (out_ok_model _ _ _ _ _ _ _ Hb H1), IH.
+Qed.
+
+Lemma model_satisfies_monitor i : known i = 0 -> monitor i (model i) = true.
+Proof.
+  destruct i as [s src d|rs customs sends|closed ops dest src|rs customs relays inbox ops sends];
+    cbn [model monitor known]; intros Hk.
   - reflexivity.
   - destruct (bind rs) as [t|e|] eqn:Hb; cbn [monitor].
     + now apply sends_ok_model.
-    + unfold bind in Hb. destruct (bind_loop rs false false [] []) as [[a4 a6]|e'|] eqn:E; try discriminate.
-      inversion Hb; subst. clear Hb.
-      assert (e = 1 \/ e = 2 \/ e = 3) as He.
-      { revert E. generalize false at 1 as h4. generalize false as h6.
-        generalize (@nil sock) at 1 as a4. generalize (@nil sock) as a6.
-        induction rs as [|r rs IH]; intros a6 a4 h6 h4 E; cbn [bind_loop] in E; [discriminate|].
-        destruct (rbindable r); [|destruct (rrequired r); [inversion E; auto|eapply IH; eauto]].
-        destruct (negb (v6 (rsock r))); destruct (isdef (rsock r)); try (eapply IH; eauto; fail).
-        - destruct h4; [inversion E; auto|eapply IH; eauto].
-        - destruct h6; [inversion E; auto|eapply IH; eauto]. }
-      destruct He as [->|[->| ->]]; reflexivity.
-    + exfalso. unfold bind in Hb.
-      destruct (bind_loop rs false false [] []) as [[a4 a6]|e'|] eqn:E; try discriminate.
-      now apply bind_loop_no_panic in E.
+    + destruct (bind_err_code rs e Hb) as [->|[->| ->]]; reflexivity.
+    + exfalso. now apply (bind_no_panic rs).
   - apply outer_ok_model.
+  - destruct (bind rs) as [t|e|] eqn:Hb; cbn [monitor].
+    + apply outs_ok_model; [exact Hb|].
+      destruct (existsb (scope_hit rs) sends); [discriminate|reflexivity].
+    + destruct (bind_err_code rs e Hb) as [->|[->| ->]]; reflexivity.
+    + exfalso. now apply (bind_no_panic rs).
 Qed.
 
 (* the monitor's IP clause is the rule: an observed choice passes iff it is the spec's *)
@@ -528,4 +593,82 @@ Lemma scope_erased st o p f sc src :
   outer false st (C18.SV6 o p f sc) src = HPath (PIp (D6 (num o 0) 0) (option_map src_num src)).
 Proof.
   intros Hc Hm. unfold outer. rewrite Hc. unfold dst_of, C18.canonical. now rewrite Hm.
+Qed.
+
+(* ------------------------------------------------------------------ known finding, class 1 *)
+(* [::1]/128 bound with scope id 1, nothing else; QUIC sends to fe80::1%1 without a source
+   address.  The rule ("for link-local IPv6, on the destination's scope") designates that
+   socket; Sender::poll_send erases the scope id and the datagram is dropped. *)
+Definition sS1 := mkSock 0 true 1 128 1 false.
+Definition wit_scope : input :=
+  IOut [rq sS1] [] [] [] [] [(false, C18.SV6 ll_octets 9 0 1, None)].
+
+Example ex_wit_scope_model :
+  model wit_scope = OOut [] None [0] None
+    [(0, HPath (PIp (D6 (num ll_octets 0) 0) None), DIp Blackhole)].
+Proof. vm_compute. reflexivity. Qed.
+
+Lemma known_scope_witness : exists i, known i = 1 /\ monitor i (model i) = false.
+Proof. exists wit_scope. split; vm_compute; reflexivity. Qed.
+
+(* the reverse: [::1]/128 with scope id 0 is handed a datagram for fe80::1%1 *)
+Example ex_wit_scope_reverse :
+  let i := IOut [rq (mkSock 0 true 1 128 0 false)] [] [] [] []
+                [(false, C18.SV6 ll_octets 9 0 1, None)] in
+  known i = 1 /\ model i = OOut [] None [0] None
+    [(0, HPath (PIp (D6 (num ll_octets 0) 0) None), DIp (SendOn 0 false))].
+Proof. vm_compute. auto. Qed.
+
+(* the real sender's observation on the witness, and what a scope-preserving sender would
+   do, as the monitor sees them *)
+Example ex_wit_scope_fixed_passes :
+  monitor wit_scope (OOut [] None [0] None
+    [(0, HPath (PIp (D6 (num ll_octets 0) 1) None), DIp (SendOn 0 false))]) = true.
+Proof. vm_compute. reflexivity. Qed.
+
+(* the class is confined to link-local destinations with a non-zero scope id and no source *)
+Lemma best_ext (P Q : sock -> bool) l : (forall s, P s = Q s) -> best P l = best Q l.
+Proof.
+  intros H. induction l as [|a l IH]; [reflexivity|]. cbn [best fold_right].
+  change (fold_right _ None l) with (best P l) at 1.
+  change (fold_right _ None l) with (best Q l). rewrite IH, H. reflexivity.
+Qed.
+
+Lemma spec_choice_ext rs src d d' :
+  (forall s, valid_send src d s = valid_send src d' s) ->
+  (forall s, valid_default src d s = valid_default src d' s) ->
+  fam_bound rs d = fam_bound rs d' ->
+  spec_choice rs src d = spec_choice rs src d'.
+Proof.
+  intros H1 H2 H3. unfold spec_choice. rewrite H3.
+  rewrite (best_ext _ _ _ H1). destruct (best (valid_send src d') (fam_bound rs d')); [reflexivity|].
+  destruct (best isdef (fam_bound rs d')); [|reflexivity]. now rewrite H2.
+Qed.
+
+Lemma scope_hit_confined rs closed dest src :
+  scope_hit rs (closed, dest, src) = true ->
+  closed = false /\ src = None /\
+  exists o p f sc, dest = C18.SV6 o p f sc /\ C18.is_v4_mapped o = false /\
+    link_local (num o 0) = true /\ sc <> 0.
+Proof.
+  unfold scope_hit. intros H. apply andb_prop in H as [Hc H].
+  destruct closed; [discriminate|]. split; [reflexivity|].
+  destruct dest as [a p|o p f sc].
+  - cbn in H. now rewrite same_sock_refl in H.
+  - cbn [C18.classify] in H.
+    destruct (C18.in_subnet C18.ENDPOINT_ID_SUBNET o); [discriminate|].
+    destruct (C18.in_subnet C18.RELAY_MAPPED_SUBNET o); [discriminate|].
+    destruct (C18.in_subnet C18.CUSTOM_MAPPED_SUBNET o); [discriminate|].
+    unfold dst_of, orig_dst, C18.canonical in H.
+    destruct (C18.is_v4_mapped o) eqn:Hm; [now rewrite same_sock_refl in H|].
+    assert (Hne : spec_choice rs (option_map src_num src) (D6 (num o 0) 0)
+                  <> spec_choice rs (option_map src_num src) (D6 (num o 0) sc)).
+    { intros E. rewrite E, same_sock_refl in H. discriminate. }
+    destruct src as [s|].
+    + exfalso. apply Hne. apply spec_choice_ext; reflexivity.
+    + split; [reflexivity|]. exists o, p, f, sc. split; [reflexivity|]. split; [exact Hm|].
+      destruct (link_local (num o 0)) eqn:Hl.
+      * split; [reflexivity|]. intros ->. now apply Hne.
+      * exfalso. apply Hne. apply spec_choice_ext; try reflexivity.
+        intros x. cbn [option_map valid_send]. now rewrite Hl.
 Qed.
